@@ -30,6 +30,30 @@ theorem port_conservation_sequential (lo hi : Nat) (ops : List Op) (hs : ∀ op 
     portConservation (observe (run (init lo hi) ops)) = true :=
   portConservation_of_inv (inv_run ops (init_inv lo hi)) (run_pending_nil ops rfl hs)
 
+/-- **failing_add_releases_port**: a failing add at any failure point — exhausted range, duplicate
+id, storage, newTorrent, resume write (inputs `Env`), inadmissible choice — from *any* state leaves the
+free-port set as it was (the taken port is back) and does not touch registry, index, database or the
+adds in flight. -/
+theorem failing_add_releases_port (s : State) (m : Meta) (o : Opts) (p : Nat) (gen : String) (e : Env) (err : AddErr)
+    (h : (addSeq s m o p gen e).2 = .error err) :
+    (addSeq s m o p gen e).1.free.Perm s.free ∧ (addSeq s m o p gen e).1.reg = s.reg ∧
+    (addSeq s m o p gen e).1.db = s.db ∧ (addSeq s m o p gen e).1.idx = s.idx ∧
+    (addSeq s m o p gen e).1.pending = s.pending :=
+  addSeq_error_restores s m o p gen e err h
+
+private def errOf : Except AddErr String → Option AddErr
+  | .error e => some e
+  | .ok _ => none
+private def mX : Meta := ⟨"h", "n", [], [], [], true⟩
+private def oX : Opts := ⟨none, true, false, false, false⟩
+/-- Non-vacuity: each failure point is reachable, and the port is free again afterwards. -/
+example : [errOf (addSeq (init 10 11) mX oX 10 "g" { stoFail := true }).2,
+           errOf (addSeq (init 10 11) mX oX 10 "g" { buildFail := true }).2,
+           errOf (addSeq (init 10 11) mX oX 10 "g" { writeFail := true }).2,
+           errOf (addSeq (init 10 10) mX oX 10 "g" {}).2] =
+    [some .storage, some .build, some .write, some .noport] ∧
+    (addSeq (init 10 11) mX oX 10 "g" { writeFail := true }).1.free = [10] := by decide
+
 /-- **ids_unique** (all schedules): ids of live torrents are pairwise different and the info-hash index
 lists exactly the live torrents; moreover ids of registered torrents and of adds in flight never clash. -/
 theorem ids_unique (lo hi : Nat) (ops : List Op) :
